@@ -27,6 +27,7 @@ def prodOk (p : Production) : Bool :=
   | some sg => sg.params == prodParams TT p
       && (if p.accept then sg.ret == .optNS .aidl else sg.ret == symTy TT (T.ncols + p.nt))
       && decide (TT.rankOf p.action < 16)
+      && (!p.rhsIds.contains (T.ncols - 1) || TT.reportsOf p.action)    -- a production over `error` reports an Error
   | none => false
 
 /-- productions are well typed; terminals carry tokens, `error` the recovery record -/
@@ -58,13 +59,17 @@ theorem tyFacts (ha : TT.actionsOk = true) (ht : tablesOk T TT = true) (hd : TT.
 
 def TypedSt (s : St) : Prop := ∀ x ∈ s.syms, HasTy (hasError s.diags) (symTy TT x.id) x.val
 
+/-- once error recovery has run, its `error` symbol is still on the stack or an Error has been reported -/
+def RecOk (s : St) : Prop := s.recovered = true → (∃ x ∈ s.syms, x.id = T.ncols - 1) ∨ hasError s.diags
+
 structure Inv2 (s : St) : Prop where
   chain : Chain C s.states s.syms
   typed : TypedSt TT s
+  recok : RecOk T s
 
 /-- how a run may end, given the state it ends in -/
 def EndOk (s : St) : Outcome → Prop
-  | .accept v => HasTy (hasError s.diags) (.optNS .aidl) v
+  | .accept v => HasTy (hasError s.diags) (.optNS .aidl) v ∧ (s.recovered = true → hasError s.diags)
   | .actionPanic p => OkKind p
   | .panic _ => False
   | _ => True
@@ -78,24 +83,26 @@ theorem topState_of_chain' {s : St} (hc : Chain C s.states s.syms) : ∃ st, s.s
 /-! ### steps -/
 
 theorem nextToken_keeps (s : St) :
-    (nextToken T s).1.states = s.states ∧ (nextToken T s).1.syms = s.syms ∧ (nextToken T s).1.diags = s.diags := by
+    (nextToken T s).1.states = s.states ∧ (nextToken T s).1.syms = s.syms ∧ (nextToken T s).1.diags = s.diags
+      ∧ (nextToken T s).1.recovered = s.recovered := by
   unfold nextToken
   split
-  · exact ⟨rfl, rfl, rfl⟩
-  · exact ⟨rfl, rfl, rfl⟩
-  · split <;> exact ⟨rfl, rfl, rfl⟩
+  · exact ⟨rfl, rfl, rfl, rfl⟩
+  · exact ⟨rfl, rfl, rfl, rfl⟩
+  · split <;> exact ⟨rfl, rfl, rfl, rfl⟩
 
-theorem inv2_of_keeps {s s' : St} (h : Inv2 C TT s) (h1 : s'.states = s.states) (h2 : s'.syms = s.syms)
-    (h3 : s'.diags = s.diags) : Inv2 C TT s' :=
-  ⟨by rw [h1, h2]; exact h.chain, by unfold TypedSt; rw [h2, h3]; exact h.typed⟩
+theorem inv2_of_keeps {s s' : St} (h : Inv2 T C TT s) (h1 : s'.states = s.states) (h2 : s'.syms = s.syms)
+    (h3 : s'.diags = s.diags) (h4 : s'.recovered = s.recovered) : Inv2 T C TT s' :=
+  ⟨by rw [h1, h2]; exact h.chain, by unfold TypedSt; rw [h2, h3]; exact h.typed,
+   by unfold RecOk; rw [h2, h3, h4]; exact h.recok⟩
 
-theorem nextToken_inv2 (F : TyFacts T TT) (s : St) (h : Inv2 C TT s) :
+theorem nextToken_inv2 (F : TyFacts T TT) (s : St) (h : Inv2 T C TT s) :
     match nextToken T s with
-    | (s', .found _ col) => Inv2 C TT s' ∧ symTy TT col = .tok
-    | (s', .eof) => Inv2 C TT s'
+    | (s', .found _ col) => Inv2 T C TT s' ∧ symTy TT col = .tok
+    | (s', .eof) => Inv2 T C TT s'
     | (s', .done o) => EndOk s' o := by
   have hk := nextToken_keeps T s
-  have hi : Inv2 C TT (nextToken T s).1 := inv2_of_keeps C TT h hk.1 hk.2.1 hk.2.2
+  have hi : Inv2 T C TT (nextToken T s).1 := inv2_of_keeps T C TT h hk.1 hk.2.1 hk.2.2.1 hk.2.2.2
   revert hi
   unfold nextToken
   split
@@ -121,10 +128,10 @@ theorem argsTyped_map {E : Prop} : ∀ (syms : List Sym) (ids : List Nat), syms.
     exact hx x (List.mem_cons_self ..)
 
 theorem reduce_inv2 (F : CertFacts T C) (G : TyFacts T TT) (s : St) (p : Nat) (la : Option Nat)
-    (h : Inv2 C TT s) (hred : C.redOK T (topState s) p = true) :
+    (h : Inv2 T C TT s) (hred : C.redOK T (topState s) p = true) :
     match reduce T env s p la with
     | (s', some o) => EndOk s' o
-    | (s', none) => Inv2 C TT s' := by
+    | (s', none) => Inv2 T C TT s' := by
   obtain ⟨st, hst⟩ := topState_of_chain' C h.chain
   obtain ⟨prod, hp, hk, ⟨hids, hlen⟩, heq, hdrv, hchain⟩ := reduce_safe T C F env s (topState s) st p la hst h.chain hred
   have hpok := G.prods p prod hp
@@ -133,7 +140,7 @@ theorem reduce_inv2 (F : CertFacts T C) (G : TyFacts T TT) (s : St) (p : Nat) (l
   | none => simp [hsg] at hpok
   | some sg =>
     simp only [hsg, Bool.and_eq_true, beq_iff_eq, decide_eq_true_eq] at hpok
-    obtain ⟨⟨hparams, hret⟩, hrank⟩ := hpok
+    obtain ⟨⟨⟨hparams, hret⟩, hrank⟩, hrep⟩ := hpok
     -- the arguments handed to the action are typed
     have hpop : ∀ x ∈ (s.syms.take prod.rhs.length).reverse, HasTy (hasError s.diags) (symTy TT x.id) x.val := by
       intro x hx
@@ -150,8 +157,19 @@ theorem reduce_inv2 (F : CertFacts T C) (G : TyFacts T TT) (s : St) (p : Nat) (l
         exact ⟨trivial, trivial, trivial⟩
       · rw [if_neg hz, if_neg (by rw [hl]; exact hz)]
         exact argsTyped_map TT _ _ hids hpop
+    -- an `error` symbol among the popped ones makes the action report an Error
+    have hpoperr : (∃ x ∈ s.syms.take prod.rhs.length, x.id = T.ncols - 1) → TT.reportsOf prod.action = true := by
+      rintro ⟨x, hx, hid⟩
+      have hmem : T.ncols - 1 ∈ prod.rhsIds := by
+        rw [← hids, ← hid]
+        exact List.mem_map.mpr ⟨x, List.mem_reverse.mpr hx, rfl⟩
+      simp only [Bool.or_eq_true, Bool.not_eq_true', List.contains_eq_mem, decide_eq_false_iff_not] at hrep
+      rcases hrep with hrep | hrep
+      · exact absurd hmem hrep
+      · exact hrep
     have hact := evalAction_typed (env := env) TT G.actions 16 prod.action sg hsg hrank s.diags
     rw [G.defs] at hact
+    have hsplit : s.syms = s.syms.take prod.rhs.length ++ s.syms.drop prod.rhs.length := (List.take_append_drop _ _).symm
     cases hres : reduce T env s p la with
     | mk s' oo =>
       have hdrv' := hdrv s'
@@ -174,7 +192,7 @@ theorem reduce_inv2 (F : CertFacts T C) (G : TyFacts T TT) (s : St) (p : Nat) (l
       | ok r =>
         obtain ⟨v, diags⟩ := r
         intro hres
-        rintro ⟨⟨ext, hext⟩, hv⟩
+        rintro ⟨⟨ext, hext⟩, hv, hrv⟩
         dsimp only at hres
         have hmono : hasError s.diags → hasError diags := by rw [hext]; exact hasError_append
         unfold reducePush at hres
@@ -183,29 +201,41 @@ theorem reduce_inv2 (F : CertFacts T C) (G : TyFacts T TT) (s : St) (p : Nat) (l
         · rw [if_pos hacc] at hres
           cases hres
           rw [if_pos hacc] at hret
-          show HasTy (hasError diags) (.optNS .aidl) v
           have hret' : sg.ret = .optNS .aidl := by simpa using hret
-          rw [← hret']; exact hv
+          refine ⟨by rw [← hret']; exact hv, ?_⟩
+          intro hrec
+          show hasError diags
+          rcases h.recok hrec with ⟨x, hx, hid⟩ | he
+          · have hempty := accept_empties T C F s (topState s) st p prod hst h.chain hred hp hacc
+            rw [hsplit, hempty, List.append_nil] at hx
+            exact hrv (hpoperr ⟨x, hx, hid⟩)
+          · exact hmono he
         · rw [if_neg hacc] at hres hret
           split at hres
           · cases hres; exact hdrv' _ rfl
           · cases hres
-            refine ⟨hchain' rfl, ?_⟩
-            intro x hx
-            rcases List.mem_cons.mp hx with rfl | hx
-            · show HasTy (hasError diags) (symTy TT (T.ncols + prod.nt)) v
-              have hret' : sg.ret = symTy TT (T.ncols + prod.nt) := by simpa using hret
-              rw [← hret']; exact hv
-            · exact HasTy.mono hmono _ _ (h.typed x (List.mem_of_mem_drop hx))
-
+            have hret' : sg.ret = symTy TT (T.ncols + prod.nt) := by simpa using hret
+            refine ⟨hchain' rfl, ?_, ?_⟩
+            · intro x hx
+              rcases List.mem_cons.mp hx with rfl | hx
+              · show HasTy (hasError diags) (symTy TT (T.ncols + prod.nt)) v
+                rw [← hret']; exact hv
+              · exact HasTy.mono hmono _ _ (h.typed x (List.mem_of_mem_drop hx))
+            · intro hrec
+              rcases h.recok hrec with ⟨x, hx, hid⟩ | he
+              · rw [hsplit] at hx
+                rcases List.mem_append.mp hx with hx | hx
+                · exact Or.inr (hrv (hpoperr ⟨x, hx, hid⟩))
+                · exact Or.inl ⟨x, List.mem_cons_of_mem _ hx, hid⟩
+              · exact Or.inr (hmono he)
 
 /-! ### error recovery -/
 
 theorem reduceOnError_inv2 (F : CertFacts T C) (G : TyFacts T TT) (la : Option Token) :
-    ∀ (fuel : Nat) (s : St), Inv2 C TT s →
+    ∀ (fuel : Nat) (s : St), Inv2 T C TT s →
       match reduceOnError T env la s fuel with
       | (s', some o) => EndOk s' o
-      | (s', none) => Inv2 C TT s' := by
+      | (s', none) => Inv2 T C TT s' := by
   intro fuel
   induction fuel with
   | zero => intro s _; unfold reduceOnError; trivial
@@ -227,12 +257,12 @@ theorem reduceOnError_inv2 (F : CertFacts T C) (G : TyFacts T TT) (la : Option T
 
 theorem findState_inv2 (G : TyFacts T TT) (error : ParseErr) (statesLen : Nat) :
     ∀ (fuel : Nat) (s : St) (la : Option Token) (col : Option Nat) (dropped : List Token),
-      Inv2 C TT s → s.states.length = statesLen → la.isSome = col.isSome → (∀ c, col = some c → symTy TT c = .tok) →
+      Inv2 T C TT s → s.states.length = statesLen → la.isSome = col.isSome → (∀ c, col = some c → symTy TT c = .tok) →
       match findState T error statesLen s la col dropped fuel with
       | (s', .inl (.done o)) => EndOk s' o
       | (_, .inl _) => False
       | (s', .inr (top, la', col', _)) =>
-          Inv2 C TT s' ∧ s'.states.length = statesLen ∧ top < statesLen
+          Inv2 T C TT s' ∧ s'.states.length = statesLen ∧ top < statesLen
           ∧ (asShift (errorAction T ((s'.states.drop (statesLen - 1 - top)).headD 0))).isSome = true
           ∧ la'.isSome = col'.isSome ∧ (∀ c, col' = some c → symTy TT c = .tok) ∧ (la = none → la' = none) := by
   intro fuel
@@ -282,12 +312,12 @@ theorem findState_inv2 (G : TyFacts T TT) (error : ParseErr) (statesLen : Nat) :
 
 theorem recoverPush_inv2 (F : CertFacts T C) (G : TyFacts T TT) (error : ParseErr) (statesLen : Nat)
     (s : St) (top : Nat) (la : Option Token) (col : Option Nat) (dropped : List Token)
-    (h : Inv2 C TT s) (hlen : s.states.length = statesLen) (htop : top < statesLen)
+    (h : Inv2 T C TT s) (hlen : s.states.length = statesLen) (htop : top < statesLen)
     (hshift : (asShift (errorAction T ((s.states.drop (statesLen - 1 - top)).headD 0))).isSome = true)
     (hlc : la.isSome = col.isSome) (hcol : ∀ c, col = some c → symTy TT c = .tok) :
     match recoverPush T error statesLen s top la col dropped with
-    | (s', .found _ c) => Inv2 C TT s' ∧ symTy TT c = .tok ∧ la.isSome = true
-    | (s', .eof) => Inv2 C TT s' ∧ la = none
+    | (s', .found _ c) => Inv2 T C TT s' ∧ symTy TT c = .tok ∧ la.isSome = true
+    | (s', .eof) => Inv2 T C TT s' ∧ la = none
     | (s', .done o) => EndOk s' o := by
   have hsl := h.chain.length
   have hn : statesLen - 1 - top ≤ s.syms.length := by omega
@@ -313,37 +343,38 @@ theorem recoverPush_inv2 (F : CertFacts T C) (G : TyFacts T TT) (error : ParseEr
     rw [hq] at hsh hdrop
     simp only [List.headD_cons] at hsh
     have hedge := F.shift q (T.ncols - 1) errState hsh
-    have hinv : ∀ (x : Sym), x.id = T.ncols - 1 → (∃ e d, x.val = .recovery e d) →
-        Inv2 C TT { s with states := errState :: s.states.drop (statesLen - 1 - top), syms := x :: (s.syms.reverse.take top).reverse } := by
-      intro x hid hval
-      refine ⟨?_, ?_⟩
-      · show Chain C (errState :: s.states.drop (statesLen - 1 - top)) (x :: (s.syms.reverse.take top).reverse)
-        rw [hsyms, hq]
+    have hinv : ∀ (s' : St) (x : Sym), s'.states = errState :: s.states.drop (statesLen - 1 - top) →
+        s'.syms = x :: (s.syms.reverse.take top).reverse → s'.diags = s.diags →
+        x.id = T.ncols - 1 → (∃ e d, x.val = .recovery e d) → Inv2 T C TT s' := by
+      intro s' x h1 h2 h3 hid hval
+      refine ⟨?_, ?_, ?_⟩
+      case refine_3 => intro _; exact Or.inl ⟨x, by rw [h2]; exact List.mem_cons_self .., hid⟩
+      · rw [h1, h2, hsyms, hq]
         exact Chain.step hdrop (by rw [hid]; exact hedge)
       · intro y hy
+        rw [h2] at hy
+        rw [h3]
         rcases List.mem_cons.mp hy with rfl | hy
-        · show HasTy _ (symTy TT y.id) y.val
-          rw [hid, G.err]
+        · rw [hid, G.err]
           obtain ⟨e, d, hv⟩ := hval
           rw [hv]; trivial
-        · have hy' : y ∈ (s.syms.reverse.take top).reverse := hy
-          rw [hsyms] at hy'
-          exact h.typed y (List.mem_of_mem_drop hy')
+        · rw [hsyms] at hy
+          exact h.typed y (List.mem_of_mem_drop hy)
     cases la with
     | some l =>
       cases col with
-      | some c => exact ⟨hinv _ rfl ⟨_, _, rfl⟩, hcol c rfl, rfl⟩
+      | some c => exact ⟨hinv _ _ rfl rfl rfl rfl ⟨_, _, rfl⟩, hcol c rfl, rfl⟩
       | none => simp at hlc
     | none =>
       cases col with
       | some c => simp at hlc
-      | none => exact ⟨hinv _ rfl ⟨_, _, rfl⟩, rfl⟩
+      | none => exact ⟨hinv _ _ rfl rfl rfl rfl ⟨_, _, rfl⟩, rfl⟩
 
 theorem errorRecovery_inv2 (F : CertFacts T C) (G : TyFacts T TT) (s : St) (la : Option Token) (col : Option Nat)
-    (fuel : Nat) (h : Inv2 C TT s) (hlc : la.isSome = col.isSome) (hcol : ∀ c, col = some c → symTy TT c = .tok) :
+    (fuel : Nat) (h : Inv2 T C TT s) (hlc : la.isSome = col.isSome) (hcol : ∀ c, col = some c → symTy TT c = .tok) :
     match errorRecovery T env s la col fuel with
-    | (s', .found _ c) => Inv2 C TT s' ∧ symTy TT c = .tok ∧ la.isSome = true
-    | (s', .eof) => Inv2 C TT s'
+    | (s', .found _ c) => Inv2 T C TT s' ∧ symTy TT c = .tok ∧ la.isSome = true
+    | (s', .eof) => Inv2 T C TT s'
     | (s', .done o) => EndOk s' o := by
   unfold errorRecovery
   dsimp only
@@ -387,7 +418,7 @@ theorem errorRecovery_inv2 (F : CertFacts T C) (G : TyFacts T TT) (s : St) (la :
 /-! ### the main loops -/
 
 theorem parseEof_inv2 (F : CertFacts T C) (G : TyFacts T TT) :
-    ∀ (fuel : Nat) (s : St), Inv2 C TT s → EndOk (parseEof T env s fuel).1 (parseEof T env s fuel).2 := by
+    ∀ (fuel : Nat) (s : St), Inv2 T C TT s → EndOk (parseEof T env s fuel).1 (parseEof T env s fuel).2 := by
   intro fuel
   induction fuel with
   | zero => intro s _; unfold parseEof; trivial
@@ -417,9 +448,9 @@ theorem parseEof_inv2 (F : CertFacts T C) (G : TyFacts T TT) :
         | done o => exact fun hh => hh
 
 theorem parseInner_inv2 (F : CertFacts T C) (G : TyFacts T TT) :
-    ∀ (fuel : Nat) (s : St) (la : Token) (col : Nat), Inv2 C TT s → symTy TT col = .tok →
+    ∀ (fuel : Nat) (s : St) (la : Token) (col : Nat), Inv2 T C TT s → symTy TT col = .tok →
       match parseInner T env s la col fuel with
-      | (s', .inl ()) => Inv2 C TT s'
+      | (s', .inl ()) => Inv2 T C TT s'
       | (s', .inr o) => EndOk s' o := by
   intro fuel
   induction fuel with
@@ -433,7 +464,12 @@ theorem parseInner_inv2 (F : CertFacts T C) (G : TyFacts T TT) :
       dsimp only
       obtain ⟨st, hst⟩ := topState_of_chain' C h.chain
       have hedge := F.shift (topState s) col target hs
-      refine ⟨?_, ?_⟩
+      refine ⟨?_, ?_, ?_⟩
+      case refine_3 =>
+        intro hrec
+        rcases h.recok hrec with ⟨x, hx, hid⟩ | he
+        · exact Or.inl ⟨x, List.mem_cons_of_mem _ hx, hid⟩
+        · exact Or.inr he
       · show Chain C (target :: s.states) (_ :: s.syms)
         have hc := h.chain
         rw [hst] at hc ⊢
@@ -474,7 +510,7 @@ theorem parseInner_inv2 (F : CertFacts T C) (G : TyFacts T TT) :
           | done o => exact fun hh => hh
 
 theorem parseLoop_inv2 (F : CertFacts T C) (G : TyFacts T TT) :
-    ∀ (fuel : Nat) (s : St), Inv2 C TT s → EndOk (parseLoop T env s fuel).1 (parseLoop T env s fuel).2 := by
+    ∀ (fuel : Nat) (s : St), Inv2 T C TT s → EndOk (parseLoop T env s fuel).1 (parseLoop T env s fuel).2 := by
   intro fuel
   induction fuel with
   | zero => intro s _; unfold parseLoop; trivial
@@ -499,14 +535,14 @@ theorem parseLoop_inv2 (F : CertFacts T C) (G : TyFacts T TT) :
           | inl u => cases u; exact fun h' => ih s'' h'
           | inr o => exact fun hh => hh
 
-theorem inv2_init (text : List Char) : Inv2 C TT { input := text } :=
-  ⟨Chain.base, by intro x hx; cases hx⟩
+theorem inv2_init (text : List Char) : Inv2 T C TT { input := text } :=
+  ⟨Chain.base, (by intro x hx; cases hx), (by intro h; cases h)⟩
 
 /-- **For every input**: the run ends in a state and outcome such that an accepted value is an
     `Option<Aidl>` which is `None` only if an Error has been reported, and a stop inside an action
     is never a `shape` or `table` panic. -/
 theorem parse_end_ok (F : CertFacts T C) (G : TyFacts T TT) (text : List Char) (fuel : Nat) :
     EndOk (parseLoop T env { input := text } fuel).1 (parseLoop T env { input := text } fuel).2 :=
-  parseLoop_inv2 T C TT env F G fuel _ (inv2_init C TT text)
+  parseLoop_inv2 T C TT env F G fuel _ (inv2_init T C TT text)
 
 end Aidl.Props.LrTyped
